@@ -45,6 +45,9 @@ CLAIMS = {
  "C06": dict(level="proof", ref="DESIGN.md 5 C06",
    text="PARTIAL. Coq theorems for the two completion rules: a lookup is done once none of its requests is in flight, which holds at the latest one request timeout after its last request and immediately for answered requests; the store phase of a put yields its outcome once what is outstanding has expired; a put that could send nothing fails at once. Whole calls (exactly one outcome, nothing left behind) under loss, duplication, overlap and clock jumps are checked on workloads of a real node.",
    note="No node-level transition model: the composition of the loop body is exercised, not proved. Real-time hangs inside flume/OS are outside the reach of the check; the timeout bound is the request timeout in force, which adapts to late replies."),
+ "C02": dict(level="proof", ref="DESIGN.md 5 C02",
+   text="Coq theorems over the validation a lookup applies to every value-carrying response, for every verification function and every sequence of responses: each item any caller receives (the one that started the lookup or one that joined it) is authentic for the lookup's target and requested salt — immutable: BEP44 hash of the value = target; mutable: 32-byte key, 64-byte signature, target = SHA1(key ++ requested salt), signature verifies over the BEP44 encoding of (salt, seq, value); signed peers: every announcement verifies over (target, timestamp), one bad entry drops the whole response — and of the kind the caller asked for; a rejected response leaves no trace. Tied to the code by real lookups of all four kinds against Byzantine scripted responders; everything both callers received is compared with the model and re-verified with the harness' own SHA-1 / ed25519-dalek / payload encoders.",
+   note="Trusted: Coq kernel; Ed25519 is a parameter of the model, instantiated per case with ed25519-dalek's verdicts on payloads the harness encodes itself; 'key is the requested pk' is proved as equality of SHA1(key ++ salt) with the looked-up target, and as key = pk under the explicit hypothesis that SHA-1 does not collide on those two inputs. The item a caller's own in-flight put contributes (Core::check_outgoing_put_request) is local data, not a remote response, and is outside the model. Sync/async Dht wrappers only forward what the actor sends (checked for get_mutable_most_recent in C16)."),
  "C18": dict(level="proof", ref="DESIGN.md 5 C18",
    text="Coq theorems over the mode rules and the adaptive state machine: a client marks its requests read-only, answers nothing and inserts no requester; a read-only requester is never inserted in either mode; a read-only reply is not used; votes for a new address trigger a ping to it, a ping request from that address clears the firewalled flag and the next refresh switches to server mode; over any history without a ping from the address currently believed public the node stays firewalled and a client; explicit server mode is never left. Tied to the code by scenarios on a real manually ticked node: every request kind (with tokens valid for the sender) to clients and servers with and without bootstrap nodes, lookups with read-only second-hop replies, puts with read-only acknowledgements, and adaptive timelines with votes for the real address or for an outside address that never pings back, pings from those addresses and 15-minute refreshes.",
    note="Trusted: Coq kernel; the node's own address on loopback stands for 'reachable', an address whose owner never pings back stands for NAT (the NAT device itself is not modelled); ties among address votes are avoided by the generator (HashMap iteration order decides them in the code). A read-only reply still settles its transaction in the socket (the request is no longer in flight): modelled as such in Check18.rstep."),
